@@ -1,7 +1,7 @@
 (** Properties/C04.v — "Serialised objects parse back to the same value".  The round trip is a corollary of
     conformance of the writer: what [ser] writes is a spelling in the sense of C03 ([spells] + [renders]). *)
 From PdfV Require Import Base.Prelude Base.DecProofs Gen.Generated Lex.Lexer Lex.StrLexer Lex.LexProofs Lex.StrProofs
-  Syn.Prim Syn.Utf8 Syn.Parser Syn.Serialize Syn.Spells Syn.ParserProofs Syn.NameProofs Syn.RenderProofs Syn.SerProofs Syn.StreamProofs Syn.IndirectSerProofs Syn.StreamSerProofs.
+  Syn.Prim Syn.Utf8 Syn.Parser Syn.Serialize Syn.Spells Syn.ParserProofs Syn.NameProofs Syn.RenderProofs Syn.SerProofs Syn.NumSerProofs Syn.StreamProofs Syn.IndirectSerProofs Syn.StreamSerProofs.
 
 (** the writer is conformant: for every storable value the bytes it writes are the items [items_of v] (which denote v),
     separated and delimited as the standard requires, whatever non-regular byte follows *)
@@ -41,6 +41,34 @@ Theorem C04_string_hex : forall s, wf_bytes s ->
   hex_run s (flat_map (fun b => [hexdig_lower (b / 16); hexdig_lower (b mod 16)]) s).
 Proof. exact ser_string_hex_run. Qed.
 Print Assumptions C04_string_hex.
+
+(** "any finite real": a `Primitive::Number` is given to the model by its exact decimal expansion and by the text `{}` prints
+    (`PNum exact short`, `short` of the form minus? digits (point digits)?).  The serializer writes either the integer the value is
+    (integral, magnitude below 2^31) or `short` with a decimal point; [norm] replaces every number by what those bytes denote — the
+    integer of equal value, or the real lexeme written — and the bytes written for v are those written for [norm v], which is
+    storable; hence every value the object model holds parses back to its normal form ("integers and reals of equal numeric
+    value being identified"). *)
+Theorem C04_numbers_normal : forall v, holdable v -> storable (norm v) /\ ser (norm v) = ser v.
+Proof. intros v H. split; [exact (norm_storable v H)|exact (ser_norm v)]. Qed.
+Print Assumptions C04_numbers_normal.
+Theorem C04_roundtrip_holdable : forall v, holdable v -> vdepth (norm v) <= MAX_DEPTH -> forall R,
+  exists b, ser v = Ok b /\ parse R F_ANY b = Ok (norm v).
+Proof. exact ser_parse_roundtrip_num. Qed.
+Print Assumptions C04_roundtrip_holdable.
+Example C04_numbers_nonvacuous :
+  let tenth := [48; 46; 49] in        (* 0.1f32 = 0.100000001490116119384765625, printed "0.1" *)
+  let exact := [48; 46; 49; 48; 48; 48; 48; 48; 48; 48; 49; 52; 57; 48; 49; 49; 54; 49; 49; 57; 51; 56; 52; 55; 54; 53; 54; 50; 53] in
+  let big := [49; 54; 55; 55; 55; 50; 49; 54] in      (* 16777216.0 *)
+  let huge := [52; 50; 57; 52; 57; 54; 55; 50; 57; 54] in   (* 2^32: integral but not below 2^31, printed with a point *)
+  norm (PArr [PNum exact tenth; PNum big big; PNum huge huge]) = PArr [PReal tenth; PInt 16777216; PReal (huge ++ [46])] /\
+  holdable (PArr [PNum exact tenth; PNum big big; PNum huge huge]).
+Proof.
+  split; [vm_compute; reflexivity|].
+  apply ho_arr. repeat constructor.
+  - exists [], [48], [49]. repeat split; try reflexivity; try discriminate. left. reflexivity. right. split; [discriminate|reflexivity].
+  - exists [], [49; 54; 55; 55; 55; 50; 49; 54], []. repeat split; try reflexivity; try discriminate. left. reflexivity. left. reflexivity.
+  - exists [], [52; 50; 57; 52; 57; 54; 55; 50; 57; 54], []. repeat split; try reflexivity; try discriminate. left. reflexivity. left. reflexivity.
+Qed.
 
 (** placement "indirect-object body": the object as Storage::write_revision writes it (header and terminator literals regenerated
     from file.rs) is read back as exactly (id, gen, v) — scalars included — and the parser stops right behind `endobj` *)
